@@ -6,7 +6,7 @@ cd "$(dirname "$0")/.."
 ROOT=$(pwd)
 V=${SEED_VCOPY:-/root/work/vcopy-rt}
 mkdir -p $V; rsync -a --delete --exclude /work --exclude /.git $ROOT/ $V/; mkdir -p $V/work
-CANDS="$@"; [ -z "$CANDS" ] && CANDS=$(cd redteam && ls -d rt*/C*)
+CANDS="$@"; [ -z "$CANDS" ] && CANDS=$(cd redteam && ls -d rt*/C* round2/rt*/C*)
 OUT=docs/REDTEAM_MATRIX.md
 echo "# White-box red-team candidates against the current checks (lib/redteam_matrix.sh, $(git log --format=%h -1))" > $OUT
 echo >> $OUT; echo "| candidate | check | verdict |" >> $OUT; echo "|---|---|---|" >> $OUT
